@@ -442,7 +442,8 @@ func (u *Unit) havocLoc(st *State, l frameLoc, pos token.Pos, name string) {
 			u.frameCheck(s2, l.Comp, *l.Ref, pos, "call to "+shortName(name))
 			// the obligation generated in the clone belongs to this unit already
 			v := u.fresh(st, "havoc_"+l.Comp, arrayElemSort(l.CSort), nil)
-			u.heapSet(st, l.Comp, ite(*l.Cond, store(h, *l.Ref, v), h))
+			// named: an ite-term can occur in no E-matching pattern
+			u.heapSet(st, l.Comp, u.define(st, l.Comp, ite(*l.Cond, store(h, *l.Ref, v), h)))
 			return
 		}
 		u.frameCheck(st, l.Comp, *l.Ref, pos, "call to "+shortName(name))
